@@ -83,6 +83,8 @@ type c14 struct {
 	all           map[uint32]*c14Order
 	live          [2][]*c14Order
 	closedIDs     []uint32
+	forced        *c14Order // the next cancel() closes this order (massCancel)
+	forceSide     int       // >= 0: the next trade() takes from this side
 	block         uint64          // block being built (orders get this height); committed blocks = block-1
 	lastCommitted map[uint32]bool // ids present on disk (added before the last commit)
 	afterReload   bool
@@ -161,7 +163,7 @@ func c14ProfileFor(r *rand.Rand, thorough bool, idx int) c14Profile {
 func runC14(ctx *WorkCtx, idx int) {
 	log.SetOutput(io.Discard)
 	r := Rng(ctx.Seed, "C14", idx)
-	c := &c14{ctx: ctx, r: r, b: newBareState(), log: &opLog{Prop: "C14", Seed: ctx.Seed, Idx: idx}, all: map[uint32]*c14Order{}, block: 1, lastCommitted: map[uint32]bool{}}
+	c := &c14{ctx: ctx, r: r, b: newBareState(), log: &opLog{Prop: "C14", Seed: ctx.Seed, Idx: idx}, all: map[uint32]*c14Order{}, forceSide: -1, block: 1, lastCommitted: map[uint32]bool{}}
 	for i := 0; i < 5; i++ {
 		c.owners = append(c.owners, NewKey("c14-owner", i).Addr)
 	}
@@ -191,6 +193,8 @@ func runC14(ctx *WorkCtx, idx int) {
 		}
 		k := r.Intn(1000)
 		switch {
+		case (len(c.live[0]) >= 18 || len(c.live[1]) >= 18) && r.Intn(40) == 0:
+			c.massCancel()
 		case k < pAdd:
 			c.add()
 		case k < pAdd+(1000-pAdd)*55/100:
@@ -595,6 +599,9 @@ func (c *c14) trade() {
 	if len(c.live[side]) == 0 && len(c.live[1-side]) > 0 && r.Intn(4) != 0 {
 		side = 1 - side
 	}
+	if c.forceSide >= 0 {
+		side, c.forceSide = c.forceSide, -1
+	}
 	// orders of side s buy coin (s==0 ? c0 : c1): the taker sells that coin
 	cin, cout := c.c0, c.c1
 	if side == 1 {
@@ -832,7 +839,35 @@ func (c *c14) judgeTrade(op, kind string, side int, det *swap.ChangeDetailsWithO
 	for _, f := range fills {
 		c.checkLive(op, f.o)
 	}
+	// (1c) best price first also means: the pool is not traded THROUGH an order that stays in the book. Orders are accepted
+	// only at or beyond the pool price and a trade that reaches an order's price has to take from the order, so afterwards the
+	// pool rate (coin given per coin taken in) is still at least every live order's rate of this side. 0.5 % covers the pool
+	// fee and rounding (lead: added after seed C14-m3, where a trade passed over the whole book without filling anything).
+	bc, sc := c.c0, c.c1
+	if side == 1 {
+		bc, sc = c.c1, c.c0
+	}
+	rb2, rs2 := c.reserves(bc, sc)
+	for _, u := range c.live[side] {
+		if u.wb.Sign() <= 0 || u.ws.Sign() <= 0 {
+			continue
+		}
+		l := new(big.Int).Mul(new(big.Int).Mul(u.ws, rb2), big.NewInt(1000))
+		r := new(big.Int).Mul(new(big.Int).Mul(u.wb, rs2), big.NewInt(1005))
+		if l.Cmp(r) > 0 {
+			c.viol("priority", op+"/pool-traded-through-order", "after the trade the pool holds %s / %s (rate %.9g) but order %d (buy %s sell %s, rate %.9g) is still in the book; %d orders were filled", rs2, rb2, ratF(rs2, rb2), u.id, u.wb, u.ws, ratF(u.ws, u.wb), len(fills))
+			break
+		}
+	}
 	c.spotCheck(op)
+}
+
+func ratF(a, b *big.Int) float64 {
+	if b.Sign() == 0 {
+		return 0
+	}
+	f, _ := new(big.Rat).SetFrac(a, b).Float64()
+	return f
 }
 
 // priceOK: the owner receives fb and releases fs at price wb/ws (buy per sell) or better, up to tol units on either amount.
@@ -894,12 +929,49 @@ func (c *c14) spotCheck(op string) {
 // cancel
 // ---------------------------------------------------------------------------------------------
 
+// massCancel closes the best 12-26 orders of the deeper side one by one without a commit in between and trades right after
+// (lead: added after seed C14-m3: a whole page of the on-disk order index closed inside one block).
+func (c *c14) massCancel() {
+	s := 0
+	if len(c.live[1]) > len(c.live[0]) {
+		s = 1
+	}
+	if c.r.Intn(2) == 0 {
+		c.commit() // all of them on disk: the closings then empty whole pages of the on-disk index
+	}
+	best := c.sortedSide(s)
+	n := 12 + c.r.Intn(15)
+	if n > len(best) {
+		n = len(best)
+	}
+	for _, o := range best[:n] {
+		if c.dead {
+			return
+		}
+		c.forced = o
+		c.cancel()
+	}
+	c.ctx.Res.Count("mass_cancels", 1)
+	c.ctx.Res.Seen(fmt.Sprintf("mass cancel of %d best orders inside one block, then a trade", n/4*4))
+	if !c.dead {
+		c.forceSide = s
+		c.trade()
+	}
+}
+
 func (c *c14) cancel() {
 	r := c.r
 	var o *c14Order
 	var id uint32
 	kind := ""
 	switch k := r.Intn(10); {
+	case c.forced != nil:
+		o, c.forced = c.forced, nil
+		id = o.id
+		kind = "live"
+		if !c.lastCommitted[id] {
+			kind = "uncommitted"
+		}
 	case k < 7:
 		s := r.Intn(2)
 		if len(c.live[s]) == 0 {
